@@ -13,7 +13,7 @@ def leg(test, module="rt", quick=(1000, 1), thorough=(10000, 16), race=False, ti
                 timeout_s=timeout_s, env=env or {}, fixed=fixed)
 
 HOOK_COMMITS = ["dd392ad"]
-FIX_COMMITS = ["e449346", "ba22cb7", "3039ef0", "273eefb", "cca5970", "2577b44", "d6810d1", "e1987c3", "b1932c7", "c49aa17", "d9e8025", "42ec2de", "5135650", "011d02a", "09939f4"]
+FIX_COMMITS = ["e449346", "ba22cb7", "3039ef0", "273eefb", "cca5970", "2577b44", "d6810d1", "e1987c3", "b1932c7", "c49aa17", "d9e8025", "42ec2de", "5135650", "011d02a", "09939f4", "4fe35d1", "cb91a35", "8687ea4"]
 
 ALL_PROPS = ["C%02d" % i for i in range(1, 21)]
 
@@ -258,6 +258,20 @@ CHECKS = {
         level_note="Trusted: sha256, the file walker. Different machines / Go versions are out of reach.",
         assumptions=["programs that do not compile are out of this property's domain (C11 judges them)"],
         design_ref="DESIGN.md §2 C19",
+    ),
+    "C08": dict(
+        title="Publisher and subscriber agree on the topic, in every target language",
+        legs=[leg("TestC08Topics", module="idl", quick=(150, 4), thorough=(3000, 16), timeout_s=3000, prefixes=["c08."]),
+              leg("TestC08ExtractorSelfTest", module="idl", fixed=True)],
+        level="exploration",
+        technique="property-based testing (rapid): differential across six generated outputs (go, java, dart, py, py:asyncio, py:tornado) — topic expressions extracted from the emitted source and evaluated — plus a composition oracle",
+        rule=("Scope names in 8 identifier shapes (capitalised or not, snake, SCREAMING, initialisms), 1..3 operation names, prefixes with 0..5 static tokens / variables in any order, -delim in {. / - _ : | ..}, runtime variable values. "
+              "Non-trivial: delimiter != '.', or scope name not capitalised, or >=1 variable. Distinct: sha256 of the case."),
+        level_text=("Exploration: within each language the publisher's and every subscriber's topic expression evaluate to the same string; the six languages produce the same string; "
+                    "that string is prefix (variables substituted, IDL dots kept) + delim + scope (as written or capitalised) + delim + operation. Extraction misses are harness errors (exit 2), never silent passes; the extractor is self-tested on the golden outputs."),
+        level_note="Trusted: the three expression evaluators (Go/Java format strings, Dart interpolation in h/idl/c08_test.go; Python lines are exec'd by CPython). The Go leg is additionally executed for real by the generated-code bed (C03/C16 harness).",
+        assumptions=["Java/Dart/Python output is evaluated by extraction, not executed (no runtimes offline)"],
+        design_ref="DESIGN.md §2 C08",
     ),
 }
 
